@@ -3,7 +3,9 @@ package c17
 // c17.go: the case lists (pure functions of seed and tier), the parallel runner and the check entry.
 
 import (
+	"encoding/json"
 	"fmt"
+	"os"
 	"runtime"
 	"sort"
 	"sync"
@@ -200,7 +202,9 @@ func Report(r *report.Run, id string, found []Found, h *Hooks) {
 			detail := map[string]any{"seed": r.Seed, "tier": r.Tier, "case_index": f.Case, "program_hash": f.Prog.Hash(),
 				"op_index": f.Fail.OpIndex, "op": f.Fail.Op, "observed": f.Fail.Detail, "program_length": len(f.Prog.Ops)}
 			if round == 1 {
-				small, sf := Shrink(f.Prog, f.Fail.Sig, func(p *Program) *Failure { return Exec(id, p, h).Fail }, 4000)
+				// shrinking budget: about 4M executed operations per signature
+				budget := max(60, min(4000, 4000000/max(1, min(len(f.Prog.Ops), f.Fail.OpIndex+1))))
+				small, sf := Shrink(f.Prog, f.Fail.Sig, func(p *Program) *Failure { return Exec(id, p, h).Fail }, budget)
 				if sf != nil {
 					if tf := ExecTrace(id, small, h).Fail; tf != nil && tf.Sig == sf.Sig {
 						sf = tf
@@ -222,9 +226,60 @@ func Report(r *report.Run, id string, found []Found, h *Hooks) {
 	}
 }
 
+// LoadReplay reads the program of a replay file written by Report: the minimal program when the
+// violation was shrunk, else the full one.
+func LoadReplay(path string) (*Program, string, error) {
+	b, err := os.ReadFile(path)
+	if err != nil {
+		return nil, "", err
+	}
+	var f struct {
+		Signature string `json:"signature"`
+		Detail    struct {
+			Program *Program `json:"program"`
+			Minimal *struct {
+				Cfg Config `json:"cfg"`
+				Ops []Op   `json:"ops_json"`
+			} `json:"minimal_program"`
+		} `json:"detail"`
+	}
+	if err := json.Unmarshal(b, &f); err != nil {
+		return nil, "", err
+	}
+	switch {
+	case f.Detail.Minimal != nil:
+		return &Program{Cfg: f.Detail.Minimal.Cfg, Class: "replay", WalkEvery: 1, Ops: f.Detail.Minimal.Ops}, f.Signature, nil
+	case f.Detail.Program != nil:
+		f.Detail.Program.WalkEvery = 1
+		return f.Detail.Program, f.Signature, nil
+	}
+	return nil, f.Signature, fmt.Errorf("replay file carries no program")
+}
+
+// Replay re-executes the one program of r.Replay (deterministic: one run decides).
+func Replay(r *report.Run, id string, h *Hooks, rule string) int {
+	p, sig, err := LoadReplay(r.Replay)
+	if err != nil {
+		r.Broken("cannot load replay %s: %v", r.Replay, err)
+		return r.Finish(rule, nil, 0)
+	}
+	res := ExecTrace(id, p, h)
+	r.Eval("replay:"+p.Hash(), true)
+	r.Sample(map[string]any{"kind": "replayed-program", "cfg": p.Cfg, "ops": p.Strings(), "recorded_signature": sig})
+	if res.Fail != nil && (h == nil || res.Fail.FromHook) {
+		r.Violation(res.Fail.Sig, map[string]any{"replay_of": r.Replay, "recorded_signature": sig, "op_index": res.Fail.OpIndex, "op": res.Fail.Op,
+			"observed": res.Fail.Detail, "minimal_program": map[string]any{"cfg": p.Cfg, "ops": p.Strings(), "ops_json": p.Ops}})
+	}
+	fmt.Printf("replay of %s (recorded signature %s): %d of %d operations executed\n", r.Replay, sig, res.OpsDone, len(p.Ops))
+	return r.Finish(rule, []string{"replay mode: exactly one recorded program is re-executed"}, 0)
+}
+
 // Run is the check entry.
 func Run(r *report.Run) int {
 	const id = "C17"
+	if r.Replay != "" {
+		return Replay(r, id, nil, "replay of one recorded program")
+	}
 	var mu sync.Mutex
 	var found []Found
 
